@@ -30,6 +30,10 @@ pub struct PipeCfg {
     pub single_file: bool,
     pub bufwriter_cap: u64,
     pub meta_zstd_level: Option<i32>,
+    /// -v of the CLI / StreamingQueueConfig.verbosity (diagnostics go to stderr; must not change
+    /// any result)
+    #[serde(default)]
+    pub verbosity: u32,
 }
 
 #[derive(Clone, Debug, Serialize, Deserialize, PartialEq, Default)]
@@ -61,6 +65,9 @@ pub struct ApiPlan {
     /// (after how many pushes, 0 = drain, 1 = sync_and_flush)
     pub calls: Vec<(u32, u8)>,
     pub concatenated: bool,
+    /// StreamingQueueConfig.adaptive_mode (library API only; the CLI rejects --adaptive)
+    #[serde(default)]
+    pub adaptive: bool,
 }
 
 #[derive(Clone, Debug, Serialize, Deserialize, PartialEq)]
@@ -112,6 +119,18 @@ pub fn draw_cfg(c: &mut Rng, gen: &GenParams, allow_small_queue: bool) -> PipeCf
         single_file: gen.pansn && c.pct(50),
         bufwriter_cap: *c.pick(&[1u64, 7, 512, 4096, 4 << 20, 4 << 20]),
         meta_zstd_level: Some(1),
+        verbosity: 0,
+    }
+}
+
+/// Verbosity is drawn from its own stream (adding the dimension did not shift the others).
+pub fn draw_verbosity(run_seed: u64) -> u32 {
+    let mut r = Rng::new(run_seed ^ 0x5645_5242);
+    match r.below(100) {
+        0..=74 => 0,
+        75..=84 => 1,
+        85..=94 => 2,
+        _ => 3,
     }
 }
 
@@ -129,7 +148,8 @@ pub fn generate_api(run_seed: u64, oversize_pct: u64) -> PipeSpec {
     let ncalls = r.range(0, 6);
     let mut calls: Vec<(u32, u8)> = (0..ncalls).map(|_| (r.below(total as u64 + 1) as u32, r.below(2) as u8)).collect();
     calls.sort();
-    spec.api = Some(ApiPlan { calls, concatenated: r.pct(50) });
+    let concatenated = r.pct(50);
+    spec.api = Some(ApiPlan { calls, concatenated, adaptive: r.pct(20) });
     spec
 }
 
@@ -138,6 +158,7 @@ pub fn generate_with(run_seed: u64, oversize_pct: u64) -> PipeSpec {
     let mut s = seed::streams(run_seed);
     let gen = GenParams::draw(&mut s.workload, &mut s.config);
     let mut cfg = draw_cfg(&mut s.config, &gen, true);
+    cfg.verbosity = draw_verbosity(run_seed);
     if oversize_pct > 0 && s.config.pct(oversize_pct) {
         cfg.queue_capacity = format!("{}", s.config.range(1, (gen.max_len as u64 / 4).max(2)));
     }
@@ -238,7 +259,7 @@ pub fn create_body(cfg: &PipeCfg, inputs: &[String]) -> CreateResult {
         cfg.min_match_len,
         cfg.pack_cardinality,
         cfg.compression_level,
-        0,
+        cfg.verbosity,
         Some(cfg.threads as usize),
         &cfg.queue_capacity,
         cfg.fallback_frac,
@@ -294,8 +315,8 @@ pub fn api_body(cfg: &PipeCfg, plan: &ApiPlan, w: &Workload) -> CreateResult {
         compression_level: cfg.compression_level,
         num_threads: cfg.threads as usize,
         queue_capacity: parse_cap(&cfg.queue_capacity),
-        verbosity: 0,
-        adaptive_mode: false,
+        verbosity: cfg.verbosity as usize,
+        adaptive_mode: plan.adaptive,
         fallback_frac: cfg.fallback_frac,
         batch_size: 50,
         pack_size: cfg.pack_cardinality as usize,
